@@ -9,19 +9,23 @@ pub uninterp spec fn spec_trim_protocol(p: Comps) -> Comps;        // path::trim
 pub open spec fn strip_root(p: Comps) -> Comps { if is_abs(p) { p.skip(1) } else { p } }
 pub open spec fn spec_mash(d: Comps, p: Comps) -> Comps { collect_spec(Seq::empty(), collect_spec(d, strip_root(p))) }
 // free-function forms (used by Stdfs::abs through `sys::`)
+// R1: the helpers take `T: AsRef<Path>`: PathBuf or &PathBuf
+pub trait PArg: Sized { spec fn c(&self) -> Comps; spec fn u8ok(&self) -> bool; }
+impl PArg for PathBuf { open spec fn c(&self) -> Comps { self.comps() } open spec fn u8ok(&self) -> bool { self.utf8_ok() } }
+impl<'a> PArg for &'a PathBuf { open spec fn c(&self) -> Comps { (**self).comps() } open spec fn u8ok(&self) -> bool { (**self).utf8_ok() } }
 pub mod sys {
     use vstd::prelude::*;
     use super::*;
-    #[verifier::external_body] pub fn is_empty(p: &PathBuf) -> (b: bool) ensures b == (p.comps().len() == 0) { unimplemented!() }                       // unit path_clean
-    #[verifier::external_body] pub fn expand(p: &PathBuf) -> (r: RvResult<PathBuf>) ensures r is Ok == spec_expand(p.comps()) is Some, r is Ok ==> r->Ok_0.comps() == spec_expand(p.comps())->Some_0 { unimplemented!() }
-    #[verifier::external_body] pub fn trim_protocol(p: PathBuf) -> (r: PathBuf) ensures r.comps() == spec_trim_protocol(p.comps()) { unimplemented!() }
-    #[verifier::external_body] pub fn clean(p: PathBuf) -> (r: PathBuf) ensures r.comps() == spec_clean(p.comps()) { unimplemented!() }                    // unit path_clean
-    #[verifier::external_body] pub fn trim_first(p: PathBuf) -> (r: PathBuf) ensures r.comps() == (if p.comps().len() > 0 { p.comps().skip(1) } else { p.comps() }) { unimplemented!() }   // unit path_helpers
-    #[verifier::external_body] pub fn dir(p: PathBuf) -> (r: RvResult<PathBuf>)
-        ensures (p.comps().len() == 0 || p.comps() == seq![Component::RootDir]) ==> r is Err && r->Err_0.kind == ErrKind::ParentNotFound,
-                !(p.comps().len() == 0 || p.comps() == seq![Component::RootDir]) ==> r is Ok && r->Ok_0.comps() == p.comps().drop_last() && (p.utf8_ok() ==> r->Ok_0.utf8_ok())                   // unit path_helpers
+    #[verifier::external_body] pub fn is_empty<T: PArg>(p: T) -> (b: bool) ensures b == (p.c().len() == 0) { unimplemented!() }                       // unit path_clean
+    #[verifier::external_body] pub fn expand<T: PArg>(p: T) -> (r: RvResult<PathBuf>) ensures r is Ok == spec_expand(p.c()) is Some, r is Ok ==> r->Ok_0.comps() == spec_expand(p.c())->Some_0 { unimplemented!() }
+    #[verifier::external_body] pub fn trim_protocol<T: PArg>(p: T) -> (r: PathBuf) ensures r.comps() == spec_trim_protocol(p.c()) { unimplemented!() }
+    #[verifier::external_body] pub fn clean<T: PArg>(p: T) -> (r: PathBuf) ensures r.comps() == spec_clean(p.c()) { unimplemented!() }                    // unit path_clean
+    #[verifier::external_body] pub fn trim_first<T: PArg>(p: T) -> (r: PathBuf) ensures r.comps() == (if p.c().len() > 0 { p.c().skip(1) } else { p.c() }) { unimplemented!() }   // unit path_helpers
+    #[verifier::external_body] pub fn dir<T: PArg>(p: T) -> (r: RvResult<PathBuf>)
+        ensures (p.c().len() == 0 || p.c() == seq![Component::RootDir]) ==> r is Err && r->Err_0.kind == ErrKind::ParentNotFound,
+                !(p.c().len() == 0 || p.c() == seq![Component::RootDir]) ==> r is Ok && r->Ok_0.comps() == p.c().drop_last() && (p.u8ok() ==> r->Ok_0.utf8_ok())                   // unit path_helpers
     { unimplemented!() }
-    #[verifier::external_body] pub fn mash(d: PathBuf, p: PathBuf) -> (r: PathBuf) ensures r.comps() == spec_mash(d.comps(), p.comps()) { unimplemented!() }   // unit path_helpers
+    #[verifier::external_body] pub fn mash<T: PArg, U: PArg>(d: T, p: U) -> (r: PathBuf) ensures r.comps() == spec_mash(d.c(), p.c()) { unimplemented!() }   // unit path_helpers
 }
 // method forms (PathExt forwards to the free functions: unit pathext_forward)
 impl PathBuf {
@@ -75,7 +79,7 @@ impl Stdfs {
     #[verifier::external_body] pub fn cwd() -> (r: RvResult<PathBuf>) ensures r is Ok == os_cwd() is Some, r is Ok ==> r->Ok_0.comps() == os_cwd()->Some_0 && r->Ok_0.utf8_ok() == os_cwd_utf8() { unimplemented!() }
 }
 
-//@ item memfs_abs file=src/sys/fs/memfs/vfs.rs block="impl Memfs" fn=_abs props=C05,C12
+//@ item memfs_abs file=src/sys/fs/memfs/vfs.rs block="impl Memfs" fn=_abs props=C05,C01,C12
 //@ sig pub(crate) fn _abs<T: AsRef<Path>>(&self, guard: &MemfsGuard, path: T) -> RvResult<PathBuf>
 //@ rw R5 1 ⟦PathError::Empty.into()⟧ => ⟦PathError::Empty_().into()⟧
 //@ rw R5 1 ⟦PathError::ParentNotFound(curr).into()⟧ => ⟦PathError::parent_not_found(curr).into()⟧
